@@ -26,6 +26,8 @@ def gen_program(rng, n_stmts, max_rows=4, max_len=4, with_assign=True, chain=Fal
     k0 = rng.choice([1, 1, 2])
     for _ in range(k0):
         lens = gens.shape_random(rng, max_rows, max_len) if rng.random() < 0.6 else rng.choice(gens.shapes_exhaustive(3, 3))
+        if rng.random() < 0.1:
+            lens = [rng.choice([0, 1, 1]) for _ in range(rng.randint(1, 4))]      # no row with more than one cell
         rows = [[fresh() % 50 for _ in range(l)] for l in lens]
         # the numpy array the RaggedArray is constructed over (the constructor does not copy): contiguous, or a strided /
         # reversed / column view of a larger array; `poke` statements write through it
@@ -40,11 +42,11 @@ def gen_program(rng, n_stmts, max_rows=4, max_len=4, with_assign=True, chain=Fal
             if _ < n_deriv:
                 if rng.random() < 0.75:
                     x = live[-1]
-                kind = rng.choice(["select", "select", "select", "select", "add_scalar", "concat1", "sort", "alias", "astype"])
+                kind = rng.choice(["select", "select", "select", "select", "add_scalar", "concat1", "sort", "alias", "astype", "unique"])
             else:
                 kind = rng.choice(["assign", "assign", "poke", "fill"])
         else:
-            kind = rng.choice(["select", "select", "select", "alias", "add_scalar", "add_arrays", "concat", "concat1", "astype", "sort", "cumsum", "diff",
+            kind = rng.choice(["select", "select", "select", "alias", "add_scalar", "add_arrays", "concat", "concat1", "astype", "sort", "cumsum", "diff", "unique",
                                "read", "read", "read_idx", "read_sum", "read_meta", "read_col"] + (["assign", "assign", "assign", "poke", "fill"] if with_assign else []))
         rows = store.val(x)
         n, m = len(rows), max([len(r) for r in rows], default=0)
@@ -76,7 +78,7 @@ def gen_program(rng, n_stmts, max_rows=4, max_len=4, with_assign=True, chain=Fal
             same = [i for i in live if [len(r) for r in store.val(i)] == [len(r) for r in rows]]
             y = rng.choice(same) if (kind == "add_arrays" and rng.random() < 0.85) else rng.choice(live)
             add({"s": kind, "x": x, "y": y})
-        elif kind in ("sort", "cumsum", "diff", "concat1", "astype"):
+        elif kind in ("sort", "cumsum", "diff", "concat1", "astype", "unique"):
             add({"s": kind, "x": x})
         elif kind == "fill":
             add({"s": "fill", "x": x, "v": 700 + fresh() % 50})
@@ -258,6 +260,8 @@ class RefStore:
                 return [r[st["j"]] for r in rows if len(r) > st["j"]]
             if s == "sort":
                 return self.alloc([sorted(r) for r in rows])
+            if s == "unique":
+                return self.alloc([sorted(set(r)) for r in rows])
             if s == "cumsum":
                 return self.alloc([list(np.cumsum(r).tolist()) if r else [] for r in rows])
             if s == "diff":
@@ -410,6 +414,11 @@ def run_real(prog, extra_reads=None, variant=0):
                 trace.append([int(v) for v in x.get_column_values(st["j"])])
             elif s == "sort":
                 xs.append(x.sort(axis=-1)); trace.append(True)
+            elif s == "unique":
+                u = np.unique(x, axis=-1, return_counts=True)[0] if variant % 2 else np.unique(x, axis=-1)
+                if not isinstance(u, RaggedArray):
+                    raise TypeError("not ragged")
+                xs.append(u); trace.append(True)
             elif s == "cumsum":
                 xs.append(np.cumsum(x, axis=-1)); trace.append(True)
             elif s == "diff":
